@@ -36,7 +36,12 @@ func VerifC06Tick() {
 	vAssume(alpha("addNode", []any{[]any{"addr"}, nil, vKey("n1"), 1}))
 	vAssume(alpha("subscribeForNewEpoch", vContractHash("probe1")))
 	vAssume(alpha("subscribeForNewEpoch", vContractHash("probe2")))
-	vAssume(alpha("subscribeForNewEpoch", vContractHash("probe1"))) // twice: no additional effect
+	// a second subscription of a subscribed contract is accepted and has no effect at all: no storage
+	// change and no notification announcing a subscriber that is not new
+	vSign(vAlphabetAcct(), true)
+	again, _ := vInvoke("netmap", "subscribeForNewEpoch", vContractHash("probe1"))
+	vAssert(again && !vEffects(), "C06/subscribing-twice-has-no-additional-effect")
+	vAssume(again)
 	if c := vParam(0); c > 0 { // param 0: the number of kept snapshots (0: the default of 10). With 1 the list
 		// published by a tick is also the oldest one kept: a clean-up that is one epoch too eager deletes it
 		vAssume(alpha("updateSnapshotCount", c))
